@@ -64,8 +64,8 @@ def optional_device_attrs(ctx):
                     opt.add(attr)
                     continue
                 for x in subterms(v):
-                    if x == ("const", None):
-                        opt.add(attr)
+                    if x == ("const", None) or x == ("attr", ("param", pf.params[0]), attr):
+                        opt.add(attr)          # None, or - on some path - what __init__ stored, which is None (dv above)
                     if x[0] == "call" and x[1][0] == "func" and x[1][1] in prog.funcs:
                         rt = summarize(prog, prog.funcs[x[1][1]]).return_term()
                         if any(y == ("const", None) for y in subterms(rt)):
